@@ -1,10 +1,10 @@
 package main
 
 import (
-	"math/big"
-	"sync"
 	stded "crypto/ed25519"
+	"math/big"
 	"math/rand"
+	"sync"
 	"time"
 
 	"github.com/go-i2p/common/destination"
